@@ -24,7 +24,7 @@ def parseAssign (s : String) : Option (Nat × Nat) :=
 
 /-- Go holds a zero value (or nil pointer, written as the zero value) in every field; the model's `none` must be
 replaced by the zero value wherever the masks of the hand-shaped object make the field present. -/
-def fillFieldsWith (fill : Nat → List Nat → Val → Val) (d : Desc) (zfuel : Nat) (params : List Nat) :
+def hsFillFieldsWith (fill : Nat → List Nat → Val → Val) (d : Desc) (zfuel : Nat) (params : List Nat) :
     List Field → List (Option Val) → List (Option Val) → List (Option Val)
   | f :: fs, v :: vs, acc =>
     let present := (fieldPresent f acc params).getD false
@@ -35,20 +35,20 @@ def fillFieldsWith (fill : Nat → List Nat → Val → Val) (d : Desc) (zfuel :
         | some x => some (fill f.ty na x)
         | none => (Z.zeroVal d zfuel f.ty).map (fill f.ty na)
       else v
-    fillFieldsWith fill d zfuel params fs vs (acc ++ [v'])
+    hsFillFieldsWith fill d zfuel params fs vs (acc ++ [v'])
   | _, _, acc => acc
 
-def fillPresent (d : Desc) : Nat → Nat → List Nat → Val → Val
+def hsFillPresent (d : Desc) : Nat → Nat → List Nat → Val → Val
   | 0, _, _, v => v
   | fuel + 1, ty, params, v =>
     match d.get? ty, v with
-    | some (.struct s), .struct fs => .struct (fillFieldsWith (fillPresent d fuel) d 64 params s.fields fs [])
+    | some (.struct s), .struct fs => .struct (hsFillFieldsWith (hsFillPresent d fuel) d 64 params s.fields fs [])
     | some (.array a), .arr es =>
       let na := (natArgVals [] params a.elem.natArgs).getD []
-      .arr (es.map (fillPresent d fuel a.elem.ty na))
+      .arr (es.map (hsFillPresent d fuel a.elem.ty na))
     | some (.union u), .union i x =>
       match u.variants[i]? with
-      | some (vi, _) => .union i (fillPresent d fuel vi ((natArgVals [] params u.elemNatArgs).getD []) x)
+      | some (vi, _) => .union i (hsFillPresent d fuel vi ((natArgVals [] params u.elemNatArgs).getD []) x)
       | none => v
     | _, _ => v
 
@@ -71,7 +71,7 @@ def handleHandShape : OpHandler := fun st op args =>
         match (assigns.splitOn ",").foldl step (some fs0) with
         | none => some "not-nat-field"
         | some fs =>
-          match writeTL1 d fuel ty false [] (fillPresent d 32 ty [] (.struct fs)) with
+          match writeTL1 d fuel ty false [] (hsFillPresent d 32 ty [] (.struct fs)) with
           | .error _ => some "ok w1b=werr"
           | .ok w =>
             match readTL1 sc.cfg d (fuelFor d w.length) ty false [] w with
